@@ -33,7 +33,7 @@ func (r hbReact) String() string {
 
 type hbExtra struct {
 	At   time.Duration
-	Kind string // pong (unsolicited) | msgUp | msgDown | wrongDir
+	Kind string // pong (unsolicited) | msgUp | msgDown | wrongDir | upgrade (polling sessions: a conformant upgrade to websocket / webtransport)
 }
 
 func (e hbExtra) String() string { return fmt.Sprintf("%s@%v", e.Kind, e.At) }
@@ -124,6 +124,9 @@ func genC07(rt *rapid.T) c07Case {
 		kinds := []string{"msgUp", "msgDown", "msgUp", "msgDown", "wrongDir"}
 		if c.Rev == 4 {
 			kinds = append(kinds, "pong", "pong")
+		}
+		if c.Carrier == "polling" {
+			kinds = append(kinds, "upgrade", "upgrade", "upgrade")
 		}
 		e := hbExtra{Kind: rapid.SampledFrom(kinds).Draw(rt, "extraKind")}
 		// offsets of 100+i microseconds keep extras off the whole-millisecond grid of pings and deadlines
@@ -258,6 +261,9 @@ func runC07(c c07Case) (fail string, stats map[string]bool) {
 	upSeq := 0
 	expPongs := 0 // v3: pongs the server must have produced
 	horizon := t0 + (c.I+c.T)*time.Duration(c.Rounds+1)
+	// revision 3: an upgrade cancels the pending deadline (excluded by the statement, the upstream design); the next
+	// client ping arms it again. Until then nothing is asserted about a close: the script ends at the old deadline
+	uncertainFrom := time.Duration(-1)
 
 	check := func(where string) string {
 		ob := observeHB(sr)
@@ -294,6 +300,10 @@ func runC07(c c07Case) (fail string, stats map[string]bool) {
 		}
 		if tn >= horizon {
 			break
+		}
+		if uncertainFrom >= 0 && tn >= uncertainFrom {
+			stats["ended-at-cancelled-deadline"] = true
+			return "", stats
 		}
 		var racer *hbPending
 		if len(pend) > 0 && pend[0].at == tn && pend[0].race {
@@ -411,6 +421,38 @@ func runC07(c c07Case) (fail string, stats map[string]bool) {
 				w.AppSend(sr, msgT("down"), nil, false, 0)
 				Settle()
 				stats["other-traffic"] = true
+			case "extra:upgrade":
+				// applicable when nothing else is due while the handshake runs (it takes up to three check
+				// periods of virtual time) and, on revision 4, no ping is outstanding (excluded by the statement)
+				next := horizon
+				for _, x := range []time.Duration{nextPing, deadline} {
+					if x >= 0 && x < next {
+						next = x
+					}
+				}
+				if len(pend) > 0 && pend[0].at < next {
+					next = pend[0].at
+				}
+				if s.pc == nil || next-tn < 450*time.Millisecond {
+					break
+				}
+				if c.Rev == 4 && deadline >= 0 {
+					stats["excluded.upgrade-while-ping-outstanding"] = true
+					break
+				}
+				to := "websocket"
+				if c.Rev == 4 && len(c.Extras)%2 == 0 {
+					to = "webtransport"
+				}
+				wc, tc, err := Upgrade(w, s.pc, to)
+				if err != nil {
+					return fmt.Sprintf("@%v conformant upgrade to %s failed: %v", now(), to, err), stats
+				}
+				s.pc, s.wc, s.tc = nil, wc, tc
+				stats["upgraded-to-"+to] = true
+				if c.Rev == 3 {
+					uncertainFrom, deadline = deadline, -1
+				}
 			case "extra:wrongDir":
 				stats["wrong-direction"] = true
 				hb := len(observeHB(sr).heartbeats)
@@ -429,6 +471,10 @@ func runC07(c c07Case) (fail string, stats map[string]bool) {
 				cl.send(ctl(tPing))
 				Settle()
 				deadline = tn + c.I + c.T
+				if uncertainFrom >= 0 {
+					uncertainFrom = -1
+					stats["v3-ping-after-upgrade"] = true
+				}
 				stats["v3-ping"] = true
 				if len(c.Pings) >= 2 {
 					stats[">=2-rounds"] = true
@@ -466,7 +512,7 @@ func runC07(c c07Case) (fail string, stats map[string]bool) {
 
 func TestC07Heartbeat(t *testing.T) {
 	col := NewCollector("TestC07Heartbeat",
-		"rapid: pingInterval/pingTimeout on a millisecond grid (1ms..60s), carrier polling/websocket/webtransport, revision 4 or 3, a client policy (per ping: pong after 0, 1ms, T-1ms, T/2, T+1ms, random; duplicate pong; never; pong issued by another goroutine at exactly the deadline; revision 3: client ping gaps incl. I+T-1ms and I+T+1ms), 0-3 extra actions off the millisecond grid (unsolicited pong, message up/down, heartbeat in the wrong direction); executed event by event in a virtual-time bubble next to a reference timeline; oracle: instants of server pings, of the close event and its reason equal the timeline exactly (a pong at exactly the deadline may go either way), never closed while pongs are in time, wrong direction => close(transport error) at that instant and no heartbeat event, nothing happens after the close. non-trivial: >=2 heartbeat rounds and a reaction within 1ms of a deadline, or a wrong-direction/unsolicited/duplicate heartbeat").Use(t)
+		"rapid: pingInterval/pingTimeout on a millisecond grid (1ms..60s), carrier polling/websocket/webtransport, revision 4 or 3, a client policy (per ping: pong after 0, 1ms, T-1ms, T/2, T+1ms, random; duplicate pong; never; pong issued by another goroutine at exactly the deadline; revision 3: client ping gaps incl. I+T-1ms and I+T+1ms), 0-3 extra actions off the millisecond grid (unsolicited pong, message up/down, heartbeat in the wrong direction, on polling sessions a conformant upgrade to websocket/webtransport while no ping is outstanding, after which the timeline continues on the new transport; on revision 3 the upgrade cancels the deadline until the next client ping, as the statement excludes); executed event by event in a virtual-time bubble next to a reference timeline; oracle: instants of server pings, of the close event and its reason equal the timeline exactly (a pong at exactly the deadline may go either way), never closed while pongs are in time, wrong direction => close(transport error) at that instant and no heartbeat event, nothing happens after the close. non-trivial: >=2 heartbeat rounds and a reaction within 1ms of a deadline, or a wrong-direction/unsolicited/duplicate heartbeat").Use(t)
 	rapid.Check(t, func(rt *rapid.T) {
 		c := genC07(rt)
 		journal("C07 %v", c)
@@ -489,5 +535,5 @@ func TestC07Heartbeat(t *testing.T) {
 			rt.Fatalf("%v: %s", c, clipStr(res.Leak, 1500))
 		}
 	})
-	col.RequireClasses(t, "timeout", "stayed-open", "within-1ms-of-deadline", "pong-at-deadline-race", "wrong-direction", "unsolicited-pong", "duplicate-pong", "v3-ping", "other-traffic", "carrier.polling", "carrier.websocket", "carrier.webtransport")
+	col.RequireClasses(t, "timeout", "stayed-open", "within-1ms-of-deadline", "pong-at-deadline-race", "wrong-direction", "unsolicited-pong", "duplicate-pong", "v3-ping", "v3-ping-after-upgrade", "upgraded-to-websocket", "upgraded-to-webtransport", "other-traffic", "carrier.polling", "carrier.websocket", "carrier.webtransport")
 }
